@@ -8,6 +8,7 @@ mod pipeline;
 mod curves;
 mod oracle;
 mod irdump;
+mod astcheck;
 
 fn main() {
     util::install_panic_hook();
@@ -30,6 +31,7 @@ fn main() {
         "curves" => curves::run(a(2), a(3)),
         "produce" => oracle::run(a(2), a(3)),
         "irdump" => irdump::run(a(2), a(3)),
+        "astcheck" => astcheck::run(a(2), a(3)),
         _ => {
             eprintln!("unknown command {cmd}");
             std::process::exit(2);
